@@ -259,6 +259,8 @@ class ValidationContext:
 
             error.source = self.source
             error.namespaces = self.namespaces
+            if error.elem is None and is_etree_element(obj):
+                error.elem = obj  # the element the caller relates the error to
 
         return self.raise_or_collect(validation, error)
 
